@@ -517,6 +517,18 @@ fn check_twin_inputs(i: usize) -> Verdict {
         vec![crate::pool::map(&[("k", crate::pool::dec(100, 2))]), crate::pool::map(&[("k", crate::pool::dec(1, 0))])],
         vec![Value::Int(1), Value::Int(1), Value::Int(2), Value::Int(1)],
     ];
+    if i == 18 {
+        // 1300 evaluations in which no call is ever repeated, then evaluations in which one is: what a ruleset has seen
+        // before does not change what an evaluation does (invocation counts against the per-evaluation cache model)
+        let mut fns = BTreeMap::new();
+        fns.insert("fa".to_string(), me::FnSpec { cacheable: true, fail_on: vec![], fail_first: 0, uncacheable_after: 0 });
+        let rule = Expr::Vec(vec![Expr::func("fa", Expr::reff("x")), Expr::func("fa", Expr::reff("y"))]);
+        let mut inputs: Vec<Value> = (0..1300).map(|k| crate::pool::map(&[("x", Value::Int(k)), ("y", Value::Int(k + 10_000))])).collect();
+        inputs.push(crate::pool::map(&[("x", Value::Int(5)), ("y", Value::Int(5))]));
+        inputs.push(crate::pool::map(&[("x", Value::Int(6)), ("y", Value::Int(6))]));
+        let case = SetCase { spec: SetSpec { rules: vec![("r0".to_string(), rule)], fns, symbols: BTreeMap::new(), suspend: 0 }, inputs };
+        return super::c11::check(&case).map_err(|i| Issue::new("sched:history-dependent", i.msg));
+    }
     if i >= 12 {
         return check_symbol_list_history(i - 12);
     }
@@ -717,7 +729,7 @@ pub fn run(ctx: &Ctx) {
         .collect();
     ctx.enumerate(
         "twin-input-histories",
-        18,
+        19,
         true,
         |i, acc| {
             acc.cell("history:equal-but-distinguishable-inputs", true);
